@@ -334,7 +334,20 @@ impl<'a> Interp<'a> {
             Shape::Enum(_) => self.enum_from_list(r, items),
             // a newtype hands everything on to its field, a list of items too (as a flatten member it is
             // given one)
-            Shape::Newtype(Ty::Recv(inner)) | Shape::Newtype(Ty::BoxRecv(inner)) => self.recv_from_list(&self.recvs[*inner], items).map(|v| newtype_value(r, v)),
+            Shape::Newtype(Ty::Recv(inner)) | Shape::Newtype(Ty::BoxRecv(inner)) => {
+                let mut v = self.recv_from_list(&self.recvs[*inner], items)?;
+                // the field's own map / and_then acts on the converted value whichever way it was read
+                if let (Some(f), Shape::Newtype(t)) = (r.newtype_field(), &r.shape) {
+                    if f.post == Post::AndThen && self.flatten_rejects(t, &v) {
+                        // the transform's own error, as returned: no location, no span
+                        return Err(vec![leaf(LeafKind::Custom, Where::Nowhere, &f.rust)]);
+                    }
+                    if f.post != Post::None {
+                        v = self.flatten_mark(t, v);
+                    }
+                }
+                Ok(newtype_value(r, v))
+            }
             // a unit struct accepts the bare word only
             Shape::Unit | Shape::Newtype(_) => Err(vec![leaf(LeafKind::BadValue, Where::Nowhere, "")]),
         }
@@ -492,6 +505,15 @@ impl<'a> Interp<'a> {
         if let (Ty::Opt(inner), true) = (&f.ty, f.with != With::None) {
             if let (Ty::Sc(sc), Some(x)) = (&**inner, v.get("some").cloned()) {
                 v = json!({ "some": apply_with(*sc, x) });
+            }
+        }
+        if let (Ty::Recv(_) | Ty::BoxRecv(_), false) = (&f.ty, f.flatten) {
+            // (the only field of a newtype around a receiver)
+            if f.post == Post::AndThen && self.flatten_rejects(&f.ty, &v) {
+                return Err(vec![leaf(LeafKind::Custom, Where::Item(it.id), &it.name)]);
+            }
+            if f.post != Post::None {
+                v = self.flatten_mark(&f.ty, v);
             }
         }
         if let Ty::Sc(sc) = f.ty {
